@@ -58,9 +58,10 @@ class VNCDoCLIClient(VNCDoToolClient):
 
 class VNCDoCLIFactory(VNCDoToolFactory):
     protocol = VNCDoCLIClient
+    completed = False  # set once every command has run and we close ourselves
 
     def clientConnectionLost(self, connector: IConnector, reason: Failure) -> None:
-        if reason.type == ConnectionDone:
+        if reason.type == ConnectionDone and self.completed:
             self.done(0)
         else:
             self.error(reason)
@@ -247,7 +248,11 @@ def build_tool(options: optparse.Values, args: list[str]) -> VNCDoCLIFactory:
     reactor.exit_status = 1
 
     # close the connection when we're done
-    factory.deferred.addCallback(lambda client: client.transport.loseConnection())
+    def close_connection(client: VNCDoToolClient) -> None:
+        factory.completed = True
+        client.transport.loseConnection()
+
+    factory.deferred.addCallback(close_connection)
 
     return factory
 
